@@ -6,7 +6,7 @@
    the published frames, in order, none skipped, whatever the interleaving.  The chain composition over the
    network model is explored in pipeline mode against the functional reference (C03_chain_partial). *)
 From Coq Require Import ZArith List Bool Lia.
-From OF Require Import Base.Str Base.Val Proto.Wire Proto.Receiver Proto.Receiver_Order Proto.Sender Proto.Sender_Safety Proto.MQGlue Proto.Edge Proto.EdgeNet.
+From OF Require Import Base.Str Base.Val Proto.Wire Proto.Receiver Proto.Receiver_Order Proto.Sender Proto.Sender_Safety Proto.MQGlue Proto.EdgeG Proto.Edge_Inst Proto.Edge Proto.EdgeNet.
 Import ListNotations.
 Open Scope Z_scope.
 
@@ -122,6 +122,58 @@ Theorem C03_edge_end_to_end :
     exists k, frames (snd (rrun Repaired (init_receiver cid false ll [c0]) rits)) = map frame_of (firstn k gs).
 Proof. exact edge_end_to_end. Qed.
 Print Assumptions C03_edge_end_to_end.
+
+(* THE LOSSLESS EDGE FOR EXPLICIT SUBSCRIPTIONS ('addr;a;b>c': names distinct and non-empty, destinations distinct).
+   Same statement, same generality in the schedule; the frame a subscription sees ([frameE]) is, per published frame, the
+   subscribed topics it carries - under their destination names, with their payloads; a frame that carries none of them
+   is handed over as the empty set; a topic whose name merely extends a subscribed name gets through the SUB prefix filter
+   ([xpartsE]) but is never part of what is handed over.  Both forms are instances of one refinement (Proto/EdgeG.v). *)
+Theorem C03_edge_lossless_explicit :
+  forall tm, tm <> [] -> NoDup (map fst tm) -> NoDup (map snd tm) -> Forall (fun sd => fst sd <> []) tm ->
+  forall gs cid ll its,
+    Forall group_wf gs -> ids_increasing MSG_ID_INITIAL_PREV gs -> EdgeG.fed (SubExplicit tm) (xstream (xpartsE tm) gs) its ->
+    exists k, frames (snd (rrun Repaired (init_receiver cid false ll [cX (SubExplicit tm)]) its))
+              = map (frame_ofX (frameE tm)) (firstn k gs).
+Proof. exact edgeE_lossless. Qed.
+Print Assumptions C03_edge_lossless_explicit.
+
+Theorem C03_edge_nothing_dropped_explicit :
+  forall tm, tm <> [] -> NoDup (map fst tm) -> NoDup (map snd tm) -> Forall (fun sd => fst sd <> []) tm ->
+  forall gs cid ll its st2 o2,
+    Forall group_wf gs -> ids_increasing MSG_ID_INITIAL_PREV gs ->
+    EdgeG.fed (SubExplicit tm) (xstream (xpartsE tm) gs) its ->
+    rrun Repaired (init_receiver cid false ll [cX (SubExplicit tm)]) its = (st2, o2) ->
+    control st2 <> Dead -> (forall f, control st2 <> InP2 f) ->
+    EdgeG.rest_of (SubExplicit tm) (xstream (xpartsE tm) gs) its = [] -> (forall s, In s (srcs st2) -> queue s = []) ->
+    frames o2 = map (frame_ofX (frameE tm)) gs.
+Proof. exact edgeE_drained_all. Qed.
+Print Assumptions C03_edge_nothing_dropped_explicit.
+
+(* Non-vacuity (explicit): subscription a, b>c; frame 0 carries a, a/x (gets through the prefix filter, never handed over)
+   and b; frame 2 carries only z (handed over as {}); frame 5 carries b only *)
+Definition exX_tm : list (str * str) := [([97], [97]); ([98], [99])].
+Definition exX_gs : list group :=
+  [ {| gid := 0; gsid := 9; parts := [([97; 47; 120], 30); ([97], 31); ([98], 32)] |};
+    {| gid := 2; gsid := 9; parts := [([122], 33)] |};
+    {| gid := 5; gsid := 9; parts := [([98], 34)] |} ].
+Definition exX_m (k : nat) : wmsg := nth k (xstream (xpartsE exX_tm) exX_gs) (hb_msg {| gid := 0; gsid := 0; parts := [] |}).
+Definition exX_its : list ritem :=
+  [ ICall None (Some 5) 0; IDeliver 0 (exX_m 0); IPoll [0%nat] 0; IPoll [] 9000000;        (* only the look-alike so far: timed out *)
+    IDeliver 0 (exX_m 1); IDeliver 0 (exX_m 2); IDeliver 0 (exX_m 3);
+    ICall None None 10000000; IPoll [0%nat] 10000000; IPoll [0%nat] 10000000; IPoll [] 10000000;    (* frame 0 = {a, c} *)
+    IDeliver 0 (exX_m 4);
+    ICall None None 20000000; IPoll [0%nat] 20000000; IPoll [0%nat] 20000000; IPoll [] 20000000;    (* stale heartbeat; frame 2 = {} *)
+    IDeliver 0 (exX_m 5); IDeliver 0 (exX_m 6);
+    ICall None None 30000000; IPoll [0%nat] 30000000; IPoll [] 30000000;                            (* frame 5 = {c} *)
+    ICall None (Some 1) 40000000; IPoll [0%nat] 40000000; IPoll [] 50000000; IPoll [] 60000000 ].
+Theorem C03_edge_explicit_nonvacuous :
+  edgeX_hyps exX_tm exX_gs exX_its = true /\
+  (let '(st2, o2) := rrun Repaired (init_receiver 7 false false [cX (SubExplicit exX_tm)]) exX_its in
+   control st2 = Idle /\ map queue (srcs st2) = [[]] /\ frames o2 = map (frame_ofX (frameE exX_tm)) exX_gs /\
+   map (fun fr => (fst fr, map (fun kv => (fst kv, st_pay (snd kv))) (snd fr))) (frames o2)
+   = [(0, [([97], 31); ([99], 32)]); (2, []); (5, [([99], 34)])]).
+Proof. split; [vm_compute; reflexivity|]. vm_compute. auto. Qed.
+Print Assumptions C03_edge_explicit_nonvacuous.
 
 (* Non-vacuity of the edge theorems: three frames - two visible topics plus a hidden one; a frame with only a hidden
    topic (handed over as the empty set); one topic - arriving while the consumer is between and inside calls, one call
